@@ -14,7 +14,7 @@ ID = 'C14'
 LEVEL = 'exploration'
 EXHAUSTIVE = True
 EXHAUSTIVE_SCOPE = 'round-trip part: every n in 1..N x 4 dtypes x 4 contents x 3 layouts; the communication part is sampled'
-RULE = ('every n in 1..N (quick 256, thorough 1024) x {float16,bfloat16,float32,float64} x contents {min(i,j), max(i,j), random symmetric, '
+RULE = ('[sizes: every n up to 256 (thorough 1024) plus large factors of 1025..6145 rows around powers of two and at random] ' + 'every n in 1..N (quick 256, thorough 1024) x {float16,bfloat16,float32,float64} x contents {min(i,j), max(i,j), random symmetric, '
         'n*i+j symmetrised} x layouts {contiguous, transposed view, strided slice}: exact round trip and packed length n(n+1)/2; '
         'simulated worlds of 2-4 ranks: symmetric vs dense allreduce/broadcast/bucketed exact equality; non-square and non-2-D shapes must raise '
         'NonSquareTensorError with zero backend operations; non-trivial: n>=2; distinct = (n, dtype, content, layout)')
@@ -48,17 +48,18 @@ def roundtrip(n, res):
     from kfac.distributed import fill_triu, get_triu
 
     i = torch.arange(n)
-    for dt in (torch.float16, torch.bfloat16, torch.float32, torch.float64):
-        contents = {
+    big = n > 1024   # large factors (thousands of rows): a reduced menu keeps the cost bounded
+    for dt in ((torch.float32, torch.bfloat16) if big else (torch.float16, torch.bfloat16, torch.float32, torch.float64)):
+        contents = {} if big else {
             'min': torch.minimum(i[:, None], i[None, :]).double(),
             'max': torch.maximum(i[:, None], i[None, :]).double(),
         }
         g = torch.Generator().manual_seed(n)
         r = torch.randn(n, n, generator=g, dtype=torch.float64)
         contents['random'] = (r + r.t())
-        idx = (torch.minimum(i[:, None], i[None, :]) * n + torch.maximum(i[:, None], i[None, :])).double()
-        contents['index'] = idx
-        contents['extreme'] = extreme(n, dt, n)
+        if not big:
+            contents['index'] = (torch.minimum(i[:, None], i[None, :]) * n + torch.maximum(i[:, None], i[None, :])).double()
+            contents['extreme'] = extreme(n, dt, n)
         for cname, M in contents.items():
             x = M.to(dt)
             if cname == 'extreme':
@@ -70,16 +71,32 @@ def roundtrip(n, res):
             if not same(x, x.t()):
                 res.skip('could not build an exactly symmetric matrix')
                 continue
-            big = torch.zeros(2 * n, 2 * n, dtype=dt)
-            big[::2, ::2] = x
-            layouts = {'contiguous': x.contiguous(), 'transposed': x.t(), 'strided': big[::2, ::2]}
+            if big:
+                layouts = {'contiguous': x.contiguous(), 'transposed': x.t()}
+            else:
+                wide = torch.zeros(2 * n, 2 * n, dtype=dt)
+                wide[::2, ::2] = x
+                layouts = {'contiguous': x.contiguous(), 'transposed': x.t(), 'strided': wide[::2, ::2]}
             for lname, v in layouts.items():
                 case = dict(n=n, dtype=str(dt), content=cname, layout=lname)
                 res.count('roundtrip_checks')
                 t = get_triu(v)
                 if t.numel() != n * (n + 1) // 2 or t.dim() != 1:
                     return res.violation(f'packed upper triangle has {t.numel()} elements (dim {t.dim()}), expected {n * (n + 1) // 2}', case)
-                y = fill_triu(v.shape, t)
+                # uninitialised memory is poisoned while fill_triu runs (what a memory sanitizer does): an element that is never
+                # written shows as NaN instead of whatever the allocator left there
+                orig_new_empty = torch.Tensor.new_empty
+
+                def poisoned(self, *a, **k):
+                    out = orig_new_empty(self, *a, **k)
+                    if out.is_floating_point():
+                        out.fill_(float('nan'))
+                    return out
+                torch.Tensor.new_empty = poisoned
+                try:
+                    y = fill_triu(v.shape, t)
+                finally:
+                    torch.Tensor.new_empty = orig_new_empty
                 if y.dtype != v.dtype or y.shape != v.shape or not same(y, v):
                     bad = (~((y == v) | (torch.isnan(y) & torch.isnan(v)))).nonzero()[:3].tolist() if y.shape == v.shape else 'shape'
                     return res.violation(f'fill_triu(shape, get_triu(x)) != x at {bad}', case)
@@ -258,6 +275,13 @@ def plan(tier, seed):
     N = tier_value(tier, 256, 1024)
     shards = tier_value(tier, 6, 12)
     specs = [dict(kind='roundtrip', ns=list(range(1, N + 1))[i::shards], budget_s=tier_value(tier, 180, 600)) for i in range(shards)]
+    # large factors (thousands of rows; "for all n"): fixed landmarks around powers of two plus seed-dependent sizes
+    import random as _r
+    rr = _r.Random(f'C14-large-{seed}')
+    large = tier_value(tier, [1025, 1100, 2049, 3072], [1025, 1026, 1100, 1537, 2047, 2048, 2049, 2500, 3072, 4095, 4097, 5000, 6145]) + \
+        [rr.randint(1025, 4200) for _ in range(tier_value(tier, 2, 12))]
+    for j, n in enumerate(large):
+        specs[j % shards]['ns'].append(n)
     nc = tier_value(tier, 160, 8000)
     cs = tier_value(tier, 4, 8)
     specs += [dict(kind='comm', first=i * (nc // cs), count=nc // cs, budget_s=tier_value(tier, 40, 300)) for i in range(cs)]
